@@ -309,6 +309,7 @@ def _yields_err(stmts):
     return False
 
 
+DOM = (1, 2, 3)          # operand extents of the finite shape tables; the thorough tier uses (1, 2, 3, 4)
 FORM_DOMAIN = {"RD": lambda r, c: r == 1, "VD": lambda r, c: c == 1, "MD": lambda r, c: True}
 
 
@@ -338,7 +339,7 @@ def out_allocation_table(arm, forms):
             allocs.append((m.group(1), c[2][:-1]))
     if not allocs:
         return "none", ""
-    dom = (1, 2, 3)
+    dom = DOM
     wrong, n = [], 0
     mat_ix = [i for i, f in enumerate(forms) if f in FORM_DOMAIN]
     import itertools
@@ -395,7 +396,7 @@ def shape_guard_truth_table(arm, g1, g2):
                 guards.append((n[1], then_err))
     if not guards:
         return "none", ""
-    dom = (1, 2, 3)
+    dom = DOM
     missed, rejected, n = [], [], 0
     for lr in dom:
         for lc in dom:
@@ -427,6 +428,9 @@ def shape_guard_truth_table(arm, g1, g2):
 
 
 def run(F, rep, tier):
+    global DOM
+    DOM = (1, 2, 3, 4) if tier == "thorough" else (1, 2, 3)
+    rep.note("shape_table_extents", list(DOM))
     rep.rule("C01-R1", "closure: scalar x scalar arm for kind K => arms FxF, FxS, SxF for every enabled matrix form F (and the matrix x row/column-vector broadcast arms stay present where they exist today)")
     rep.rule("C01-R2", "arm pattern forms = struct operand field types; out form = broadcast form")
     rep.rule("C01-R3", "kernel normal form out[i] := lhs[i] OP rhs[i] with OP = the operator the token denotes (oracle), operand order, index correspondence, full iteration space")
